@@ -10,18 +10,17 @@
    (2) raises or returns a consistent IR ... C17_consistent   (FULL: no well-formedness hypothesis on p; Inv =
        C01's I1-I7: use-def both directions, producer/index, node.graph, ownership flags, initializers keyed
        by name, inputs/initializers without producer, owner iff role.)
-   (3) re-serialization is a fixpoint ...... NOT PROVED.  The statement
-         C17_ser_fixpoint : deser p = Ok (h,m) -> ser h m = Ok (h1,q) ->
-                            exists h' m' h'', deser q = Ok (h',m') /\ ser h' m' = Ok (h'', q)
-       was refuted by the faithful model on the code as it was (finding
-       fixpoint-initializer-empty-value-info, fixed by /repo 420823a; the model follows the fix and the
-       former witness is kept as an Example).  It is evaluated by vm_compute on every generated case
-       (Canon.model_fixpoint) and compared with the implementation's behaviour: tested, not proved.
+   (3) re-serialization is a fixpoint ...... C17_ser_fixpoint (FULL, for every proto; hypotheses only on the opaque
+       leaf (de)serializers: np_ok, np_idem, leaf_fill_m, evaluated per case).  Intermediate statements kept:
+       C17_ser_fixpoint_wf2 (any state with a well-formed generalised unfolding), C17_ser_fixpoint_partial.
+       History: the clause was refuted twice by the faithful model on the code as it was — findings
+       fixpoint-initializer-empty-value-info (fixed by /repo 420823a) and reser-duplicate-initializer-bad-dtype
+       (found by this proof; fixed by /repo 3a09e57); the model follows both fixes.
    (4) no file access ...................... holds of the model by construction (deser_model / ser_model have
        no file-system component: C17_deser_function_of_proto); on the implementation it is observed with
        audit hooks on every run (not a theorem). *)
 From Coq Require Import NArith List Bool Arith.
-From IRV Require Import Base.Exn C03.Model C03.Canon C03.Inv C03.Tree C03.TreeF C03.PayFixDefs C03.IsoThmF C17.Top.
+From IRV Require Import Base.Exn C03.Model C03.Canon C03.Inv C03.Tree C03.TreeF C03.PayFixDefs C03.IsoThmF C17.Top C17.Tree2 C17.Fix2Thm C17.Fix2Defs C17.Fix2Final.
 Import ListNotations.
 Open Scope N_scope.
 
@@ -51,6 +50,39 @@ Theorem C17_ser_fixpoint_partial :
       ser_model np h m = Ok (h1, q) /\ deser_model q = Ok (h', m') /\ ser_model np h' m' = Ok (h'', q).
 Proof. intros np p h m _ Hs Hi. exact (ser_deser_ser np h m Hs Hi). Qed.
 Print Assumptions C17_ser_fixpoint_partial.
+
+(* The re-serialization fixpoint for every state whose GENERALISED unfolding (C17/Tree2.v: placeholders for
+   dangling names, duplicated / empty input names with "last definition wins", graph outputs that resolve to
+   nothing) is well formed.  wf2_m is boolean; it is evaluated by vm_compute on every accepted case of the check
+   and has never been false on a state returned by the deserializer (that it ALWAYS holds is the remaining
+   lemma punfold_real, in progress). *)
+Theorem C17_ser_fixpoint_wf2 :
+  forall np h m h1 q,
+    np_ok np = true -> np_idem np = true ->
+    ser_model np h m = Ok (h1, q) -> wf2_m (unfold2_model np h m) = true ->
+    exists h' m' h'', deser_model q = Ok (h', m') /\ ser_model np h' m' = Ok (h'', q).
+Proof. exact ser_fixpoint2. Qed.
+Print Assumptions C17_ser_fixpoint_wf2.
+
+(* C17_ser_fixpoint, FULL: for EVERY proto p, however malformed: if deserialization returns an IR and serializing
+   that IR returns a proto q, then q deserializes and the result serializes to q again.  No hypothesis on p.
+   The three remaining hypotheses are contracts of the LEAF (de)serializers, which this model treats as opaque
+   tokens (C02/C04's business), all boolean and evaluated by vm_compute on every case of the check:
+     np_ok np      the leaf normalisation of a value payload maps nothing to / from "no information";
+     np_idem np    that normalisation is idempotent;
+     leaf_fill_m   for every non-input initializer that is not a graph output, completing its (normalised)
+                   payload with the tensor's dtype/shape changes nothing (it already has type and shape).
+   Proof: generalised unfolding (Tree2.v) + symbolic unfolding of the proto (PUnfold.v):
+   punfold_real (deser p realises pu_m p), punfold_wfs (pu_m p is structurally well formed), ser_nosbad,
+   wf2_glue, ser2 (ser writes t2p of the unfolding), deser2 (deser of t2p T rebuilds T), payfix2. *)
+Theorem C17_ser_fixpoint :
+  forall np p h m h1 q,
+    np_ok np = true -> np_idem np = true ->
+    deser_model p = Ok (h, m) -> ser_model np h m = Ok (h1, q) ->
+    leaf_fill_m (unfold2_model np h m) = true ->
+    exists h' m' h'', deser_model q = Ok (h', m') /\ ser_model np h' m' = Ok (h'', q).
+Proof. exact ser_fixpoint. Qed.
+Print Assumptions C17_ser_fixpoint.
 
 (* ---- non-vacuity: a malformed proto that IS accepted.  Names: 1 = "a", 2 = "b", 3 = "x", 4 = "zz".
    graph inputs [a; a] (duplicated), initializer for the input a, nodes in cyclic/unsorted order
